@@ -80,6 +80,7 @@ var c10EvalCfgs = []c10EvalCfg{
 	{exprs: []c10EvalExpr{c10ExFF}, as: []string{"x"}, tags: []string{"x"}, keep: true},
 	{exprs: []c10EvalExpr{c10ExFF}, as: []string{"f"}, keep: true},
 	{exprs: []c10EvalExpr{c10ExFF, c10ExFF}, as: []string{"f", "y"}},
+	{exprs: []c10EvalExpr{c10ExTZ}, as: []string{"x"}, keep: true, keepList: []string{"t", "x"}, useTag: true}, // t is a tag, not a field
 }
 
 // c10EvalRef is the documented eval transformation: expressions in order, each result
